@@ -32,6 +32,12 @@ def set (p : Part) (b : Blob) : Part :=
   let (p1, old) := get p
   if old = b then p1 else { p1 with loaded := some b, dirty := true }
 
+/-- a change of the part's content that does NOT raise its dirty flag: editing an attribute of a
+font-level guideline (stored in fontinfo) flags only the font (`Font._guidelineChanged`) -/
+def setQuiet (p : Part) (b : Blob) : Part :=
+  let (p1, _) := get p
+  { p1 with loaded := some b }
+
 /-- `_saveInfo`, `_saveGroups`, `_saveLib`: always written (which reads the part first) -/
 def saveAlways (p : Part) : Part :=
   let (p1, b) := get p
